@@ -36,4 +36,29 @@ def uniqueTbl {K : Type} (L : ℕ) (north west : ℕ → ℕ) (tbl : ℤ → ℕ
     if id = 0 then tbl 0 (firstIdx L north (north e)) (firstIdx L north (north l))
     else tbl id (firstIdx L north (north e)) (firstIdx L west (west l))
 
+/-! ### the vectors that close the (reduced) north / west legs of the networks -/
+
+/-- entries of a closing vector -/
+inductive Fill where
+  | ones            -- every entry is 1
+  | classSizes      -- entry `c` is the number of Liouville indices in class `c` (`np.bincount`)
+  deriving DecidableEq, Repr
+
+/-- length of a closing vector -/
+inductive Len where
+  | classCount (leg : String)   -- max(<leg>_degeneracy_map) + 1 : one entry per class
+  | full                        -- dim**2 : one entry per Liouville index
+  deriving DecidableEq, Repr
+
+structure CloseVec where
+  fill : Fill
+  len : Len
+  deriving DecidableEq, Repr
+
+/-- entry `c` of a closing vector for the degeneracy map `m` on `L` Liouville indices -/
+def fillWeight {K : Type} [NatCast K] [One K] (f : Fill) (L : ℕ) (m : ℕ → ℕ) (c : ℕ) : K :=
+  match f with
+  | .ones => 1
+  | .classSizes => (((List.range L).filter (fun a => m a == c)).length : K)
+
 end OQuPyVerif.Degeneracy
